@@ -25,15 +25,27 @@ if hasattr(sys, 'set_int_max_str_digits'):
     sys.set_int_max_str_digits(0)
 STATS = G.STATS
 PARTIAL = [
-    "non-singularity of the collocation matrix / of N^T N (Schoenberg-Whitney / total positivity) is a hypothesis: the theorems say 'whenever lu_solve returns'; the harness checks that it does return on every generated data set",
+    "non-singularity of the collocation matrix / of N^T N (Schoenberg-Whitney / total positivity) is a hypothesis: the theorems say 'whenever lu_solve returns'; the harness checks that it does return on every generated data set. "
+    "Proved in that direction (necessary conditions only, data with distinct consecutive points): for the averaged knot vector with invp*p = 1 every "
+    "interior parameter lies strictly inside the support of its own basis function (averaged_schoenberg_whitney) and the collocation matrix of "
+    "interpolate_curve / interpolate_surface has a positive diagonal (interpolateCurve_collocation_diag_pos, interpolateSurface_collocation_diag_pos); "
+    "every knot span of compute_knot_vector2 contains a parameter (knotVector2_span_has_param, the docstring guarantee), the matrix N of the "
+    "approximations has no zero column and N^T N a positive diagonal (approximateCurve_normal_matrix_diag_pos, approximateSurface_spans_and_diag)",
     "least squares: proved for the interior data points k = 1..nd-2 (the objective of The NURBS Book Eq. 9.63) and for data with positive chord lengths (approximateCurve_least_squares); for arbitrary chord lengths only the form with N_j,p as computed by basis_function_one (approximateCurve_minimises) is proved",
-    "the averaged knot vector of the interpolation is proved non-decreasing under invp*p*u_(n-2) <= 1 (holds for invp = 1/p exactly; invp is the double 1.0/p)",
+    "the knot vectors: compute_knot_vector (Eq. 9.8) and compute_knot_vector2 (Eqs. 9.68-9.69) are proved to build valid clamped knot vectors "
+    "(Geomdl.ClampedKnots: n+p+1 knots, p+1 zeros, p+1 ones, non-decreasing, every interior knot strictly inside (0,1), interior knots pairwise "
+    "different, accepted by knotvector.check) for parameters strictly increasing from 0 to 1 - compute_knot_vector2 with int() exact (IsFloor), "
+    "compute_knot_vector under 0 < invp and invp*p <= 1 (1/p exactly: knotVector_valid_exact, no residual hypothesis; the doubles 1.0/p for "
+    "p = 1..4, 6..9 round down, checked in an example) or invp*p <= 1+e with the last chord at least the share e of the total chord length (the doubles "
+    "1.0/5, 1.0/10 round up by 2^-54). That the double 1.0/p satisfies |invp*p - 1| <= 2^-53 for EVERY p is floating-point knowledge, not proved",
     "chord lengths and their square roots are doubles computed by math.sqrt: passed to the model as inputs (exact dyadic values)",
     "approximate_surface: modelled (approximateSurface / lsqPass, correspondence 'asurf'); proved: corner control points = "
     "corner data points, evaluated corners S(0|1,0|1) = corner data (unconditionally for positive chord lengths), every "
-    "pass solves its normal equations and minimises the squared residual of ITS line (N as computed by basis_function_one). "
-    "Not proved (and not true of A9.7): a least-squares statement for the surface as a whole; the evaluated-curve form of "
-    "the per-line minimisation (through basisFunOne = Cox-de Boor, as done for approximate_curve) is not restated for the passes",
+    "pass solves its normal equations and minimises the squared residual of ITS line - with N as computed by basis_function_one for any data "
+    "(approximateSurface_passes_normal_equations, lsqLine_minimises) and, for positive chord lengths in both directions, against the EVALUATED "
+    "B-spline curve of the line (span search + A2.2 + A3.1) among all choices of the interior control points "
+    "(approximateSurface_passes_least_squares, lsqPass_least_squares). "
+    "Not proved (and not true of A9.7): a least-squares statement for the surface as a whole",
     "approximate_curve / approximate_surface raise IndexError for 2 control points in a direction (ctrlpts_size = 2, degree 1: "
     "matrix_multiply on the empty transposed matrix; finding F-11a); the driver answers ERR there, the generators ask for >= 3 control points, "
     "and every theorem about a fitting routine carries the guard of its driver op as hypothesis (InterpCurveOk / InterpSurfOk / "
@@ -215,6 +227,50 @@ def oracle(c):
         o = _fit(c)
     except Exception as e:
         return "%s raised %s: %s" % (c.kind, type(e).__name__, e)
+    return _judge(c, o) or _knots(c, o)
+
+
+def _fq(x):
+    return x.q if hasattr(x, 'q') else F(x)
+
+
+def _kv_valid(name, kv, p, n, par, need_span):
+    """a valid clamped knot vector with simple interior knots (theorems knotVector_valid / knotVector2_valid, stated for
+    parameters that run strictly increasing from 0 to 1); for the approximation also: every span holds a parameter"""
+    if not (par[0] == 0 and par[-1] == 1 and all(a < b for a, b in zip(par, par[1:]))):
+        return None           # outside the hypotheses of the theorems (coincident consecutive data points in every line)
+    if 1 - par[-2] < F(1, 2 ** 52):
+        return None           # the double 1.0/p may exceed 1/p by 2^-53 relative: hypothesis of the '_near' theorems
+    if len(kv) != n + p + 1:
+        return "%s has %d knots, expected %d" % (name, len(kv), n + p + 1)
+    if any(x != 0 for x in kv[:p + 1]) or any(x != 1 for x in kv[n:]):
+        return "%s is not clamped to [0, 1] with multiplicity p+1" % name
+    if any(not (a < b) for a, b in zip(kv[p:n], kv[p + 1:n + 1])):
+        return "%s: the knots U_p .. U_n are not strictly increasing" % name
+    if need_span:
+        for s_ in range(p, n):
+            if not any(kv[s_] <= u < kv[s_ + 1] for u in par):
+                return "%s: the knot span %d contains no parameter" % (name, s_)
+    return None
+
+
+def _knots(c, o):
+    from geomdl import fitting
+    d = c.data
+    if c.kind in ('icurve', 'acurve'):
+        par = [_fq(x) for x in fitting.compute_params_curve(qpts(d['pts']), d['cen'])]
+        n = len(d['pts']) if c.kind == 'icurve' else d['nc']
+        return _kv_valid('knot vector', [_fq(x) for x in o.knotvector], d['p'], n, par, c.kind == 'acurve')
+    uk, vl = fitting.compute_params_surface(qpts(d['pts']), d['su'], d['sv'], d['cen'])
+    uk, vl = [_fq(x) for x in uk], [_fq(x) for x in vl]
+    nu, nv = (d['su'], d['sv']) if c.kind == 'isurf' else (o.ctrlpts_size_u, o.ctrlpts_size_v)
+    return (_kv_valid('knot vector u', [_fq(x) for x in o.knotvector_u], d['pu'], nu, uk, c.kind == 'asurf')
+            or _kv_valid('knot vector v', [_fq(x) for x in o.knotvector_v], d['pv'], nv, vl, c.kind == 'asurf'))
+
+
+def _judge(c, o):
+    from geomdl import fitting, helpers
+    d = c.data
     if c.kind == 'icurve':
         if o.degree != d['p']:
             return "interpolating curve has degree %d" % o.degree
